@@ -337,6 +337,30 @@ func genRegular(t *rapid.T, sc sizeClass) poly {
 	return poly{kind: "regular-trig", coords: "generic", vs: vs}
 }
 
+// genDiagonal: outlines with edges at exactly 45 degrees whose bounding box is a square with generic (not
+// binary) coordinates: a right-angled isosceles triangle, a diamond, a square with its corners cut off.
+// The quadtree's centre lines cross such an edge exactly at cell corners (the clipped pieces of the edge
+// in diagonally adjacent cells meet in a corner). The x and y coordinates are the same floats, so the
+// relations are exact; place() then only applies symmetries of the square, no translation.
+func genDiagonal(t *rapid.T, sc sizeClass) poly {
+	a := g.Coord(t, "a", 100)
+	L := g.Length(t, "side", 1e-1, 1e3)
+	b := a + L
+	var vs []v2.Vec
+	kind := rapid.SampledFrom([]string{"right-isosceles", "diamond", "chamfered-square", "right-isosceles"}).Draw(t, "diagonal-kind")
+	switch kind {
+	case "right-isosceles":
+		vs = []v2.Vec{{X: a, Y: a}, {X: b, Y: a}, {X: a, Y: b}}
+	case "diamond":
+		c, r := a, L
+		vs = []v2.Vec{{X: c + r, Y: c}, {X: c, Y: c + r}, {X: c - r, Y: c}, {X: c, Y: c - r}}
+	default:
+		d := L * g.F(0.05, 0.45).Draw(t, "chamfer")
+		vs = []v2.Vec{{X: a + d, Y: a}, {X: b - d, Y: a}, {X: b, Y: a + d}, {X: b, Y: b - d}, {X: b - d, Y: b}, {X: a + d, Y: b}, {X: a, Y: b - d}, {X: a, Y: a + d}}
+	}
+	return poly{kind: "diagonal-" + kind, coords: "generic", vs: vs, notes: []string{"no-shift"}}
+}
+
 // place applies an exact symmetry of the square (so rectilinear stays
 // rectilinear and x-monotone also becomes y-monotone), a translation, an
 // orientation reversal and a rotation of the start vertex.
@@ -356,7 +380,13 @@ func place(t *rapid.T, p poly) poly {
 		vs[i] = v
 	}
 	var d v2.Vec
-	switch rapid.IntRange(0, 3).Draw(t, "shift") {
+	shiftKind := rapid.IntRange(0, 3).Draw(t, "shift")
+	for _, nn := range p.notes {
+		if nn == "no-shift" {
+			shiftKind = 0
+		}
+	}
+	switch shiftKind {
 	case 0: // none
 	case 1: // lattice shift
 		q := 0.25
@@ -385,7 +415,9 @@ func place(t *rapid.T, p poly) poly {
 
 func genPolygon(t *rapid.T, sc sizeClass) poly {
 	var p poly
-	switch rapid.SampledFrom([]string{"convex", "star", "star", "rect", "rect", "sliver", "regular"}).Draw(t, "kind") {
+	switch rapid.SampledFrom([]string{"convex", "star", "star", "rect", "rect", "sliver", "regular", "diagonal"}).Draw(t, "kind") {
+	case "diagonal":
+		p = genDiagonal(t, sc)
 	case "convex":
 		p = genConvex(t, sc)
 	case "star":
